@@ -14,6 +14,7 @@
     (1+x)^2 = 1 + 2x + x^2).  Allele counts are integers (Z) in the recurrences so that no guards are needed. *)
 From Coq Require Import ZArith QArith Qreduction List Bool Arith Lia Lqa Setoid Morphisms Sorted Permutation.
 From Dadi Require Import Model.LowPass Proofs.LowPassBinom Proofs.LowPassPart Proofs.LowPassQ Proofs.LowPassProb Proofs.LowPassMat.
+From Dadi Require Import Model.LowPassSim Proofs.LowPassSimExp Proofs.LowPassSimDeep.
 Import ListNotations.
 Local Open Scope Q_scope.
 
@@ -478,3 +479,117 @@ Proof.
       * replace (2 * n - 2 * m)%nat with (S (S (2 * n - S (S (2 * m))))) by lia. rewrite (bz_pascal2 (2 * n - S (S (2 * m)))). ring.
       * rewrite (binN_gt n (S m)) by lia. rewrite qnat_0. ring.
 Qed.
+
+(** ** assembling the row of the subsampling matrix *)
+Lemma combs_length {A} : forall k (l : list A), length (combs k l) = binN (length l) k.
+Proof.
+  induction k as [|k IHk]; intros l; [rewrite combs_0, binN_0; reflexivity|].
+  induction l as [|x l IHl]; [reflexivity|].
+  rewrite combs_S_cons, app_length, map_length, IHk, IHl. reflexivity.
+Qed.
+
+Lemma hcZ_nat m i l : hcZ m (Z.of_nat i) l == qnat (hc m i l).
+Proof. unfold hcZ. destruct (Z.ltb_spec (Z.of_nat i) 0); [lia|]. rewrite Nat2Z.id. reflexivity. Qed.
+
+(** the number of arrangements of j derived alleles: sum of the Hardy-Weinberg weights = C(2n, j) *)
+Lemma ways0_total n j : qsum (map ways0 (part n (Z.of_nat j) 0)) == qnat (binN (2 * n) j).
+Proof.
+  rewrite (qsum_map_ext ways0 (fun pt => ways0 pt * (fun _ => 1) pt)) by (intros; ring).
+  rewrite (part_sum_TS n (Z.of_nat j) (fun _ => 1)) by reflexivity.
+  transitivity (Sg n 0 (Z.of_nat j) 0).
+  - apply TS_ext. intros a b c _. rewrite hcZ_0. reflexivity.
+  - rewrite Sg_closed. unfold Tq. rewrite binN_0. replace (2 * 0)%nat with 0%nat by lia. rewrite bz_0. cbn [Z.eqb].
+    replace (Z.of_nat j - 0)%Z with (Z.of_nat j) by lia. rewrite bz_nat.
+    replace (2 * n - 0)%nat with (2 * n)%nat by lia. change (qnat 1) with 1. ring.
+Qed.
+
+(** weighted number of m-subsets with i derived alleles *)
+Lemma ways0_hc_total n m j i :
+  qsum (map (fun pt => ways0 pt * qnat (hc m i pt)) (part n (Z.of_nat j) 0)) == Tq n m (Z.of_nat j) (Z.of_nat i).
+Proof.
+  rewrite (qsum_map_ext _ (fun pt => ways0 pt * (fun l => hcZ m (Z.of_nat i) l) pt)) by (intros; rewrite hcZ_nat; reflexivity).
+  rewrite (part_sum_TS n (Z.of_nat j) (fun l => hcZ m (Z.of_nat i) l)) by (intros; apply hcZ_perm; assumption).
+  apply Sg_closed.
+Qed.
+
+Lemma combine_map_self {A B} (h : A -> B) (l : list A) : combine l (map h l) = map (fun x => (x, h x)) l.
+Proof. induction l; [reflexivity|]. cbn [map combine]. now rewrite IHl. Qed.
+
+Lemma nth_map_seq0 (f : nat -> Q) m i : (i < m)%nat -> nth i (map f (seq 0 m)) 0 = f i.
+Proof.
+  intros H. rewrite (nth_indep _ 0 (f 0%nat)) by (now rewrite map_length, seq_length).
+  rewrite map_nth, seq_nth by exact H. reflexivity.
+Qed.
+
+Lemma half_double n : (2 * n / 2 = n)%nat.
+Proof. rewrite Nat.mul_comm. apply Nat.div_mul. lia. Qed.
+
+Lemma Forall2_nth_Q : forall a b : list Q, length a = length b ->
+  (forall i, (i < length a)%nat -> nth i a 0 == nth i b 0) -> Forall2 Qeq a b.
+Proof.
+  induction a as [|x a IH]; intros [|y b] L H; try discriminate; constructor.
+  - apply (H 0%nat). cbn. lia.
+  - apply IH; [cbn in L; lia|]. intros i Hi. apply (H (S i)). cbn. lia.
+Qed.
+
+(** entry i of the inbreeding form at F = 0 *)
+Lemma proj_row_inb_F0_entry n m j i : (m <= n)%nat -> (j <= 2 * n)%nat -> (i <= 2 * m)%nat ->
+  nth i (proj_row_inb (2 * n) (2 * m) 0 j) 0
+  == bz (2 * m) (Z.of_nat i) * bz (2 * n - 2 * m) (Z.of_nat j - Z.of_nat i) / qnat (binN (2 * n) j).
+Proof.
+  intros Hm Hj Hi. rewrite nth_proj_row_inb by exact Hi.
+  unfold parts. rewrite half_double. set (pts := part n (Z.of_nat j) 0).
+  unfold part_probs. rewrite Qeq_bool_refl0. unfold normalise. rewrite map_map, combine_map_self, map_map. cbn [fst snd].
+  pose proof (ways0_total n j) as W. fold pts in W.
+  assert (PW : 0 < qnat (binN (2 * n) j)) by (apply qnat_pos, binN_pos; lia).
+  assert (PC : 0 < qnat (binN n m)) by (apply qnat_pos, binN_pos; lia).
+  rewrite (qsum_map_ext _ (fun pt => / (qnat (binN (2 * n) j) * qnat (binN n m)) * (ways0 pt * qnat (hc m i pt)))).
+  - rewrite qsum_map_scale. unfold pts. rewrite ways0_hc_total. unfold Tq. field. split; lra.
+  - intros pt Hpt. unfold pts in Hpt. apply part_spec in Hpt; [|lia]. destruct Hpt as (L & _).
+    rewrite Qred_correct, W. unfold proj_inb. cbv zeta. rewrite half_double, nth_map_seq0 by lia.
+    rewrite map_length, combs_length, L. fold (sums m pt). fold (hc m i pt). field. split; lra.
+Qed.
+
+(** THE THEOREM: for all even sizes the F = 0 value of the inbreeding form of projection_matrix is the
+    hypergeometric row of the F = 0 branch *)
+Theorem proj_matrix_F0_consistent hn hm j : (hm <= hn)%nat -> (j <= 2 * hn)%nat ->
+  Forall2 Qeq (proj_row_inb (2 * hn) (2 * hm) 0 j) (hyper_row (2 * hn) (2 * hm) j).
+Proof.
+  intros Hm Hj.
+  assert (L1 : length (proj_row_inb (2 * hn) (2 * hm) 0 j) = (2 * hm + 1)%nat).
+  { apply proj_row_inb_prob_vector; [lia | rewrite half_double; exact Hj | left; reflexivity]. }
+  assert (L2 : length (hyper_row (2 * hn) (2 * hm) j) = (2 * hm + 1)%nat).
+  { unfold hyper_row. destruct (2 * hn <? 2 * hm)%nat; [apply repeat_length | now rewrite map_length, seq_length]. }
+  apply Forall2_nth_Q; [congruence|]. intros i Hi. rewrite L1 in Hi.
+  rewrite proj_row_inb_F0_entry by lia.
+  unfold hyper_row. destruct (Nat.ltb_spec (2 * hn) (2 * hm)); [lia|]. rewrite nth_map_seq0 by lia.
+  assert (PW : 0 < qnat (binN (2 * hn) j)) by (apply qnat_pos, binN_pos; lia).
+  destruct (Nat.leb_spec i j) as [Hij|Hij].
+  - rewrite Qred_correct, !binQ_binN. replace (Z.of_nat j - Z.of_nat i)%Z with (Z.of_nat (j - i)) by lia. rewrite !bz_nat. reflexivity.
+  - rewrite (bz_neg _ (Z.of_nat j - Z.of_nat i)) by lia. field. lra.
+Qed.
+
+(** hence the expectation of the simulated row (deep coverage, uniform subsets) is the projection_matrix row also at F = 0,
+    for all even sizes *)
+Theorem expected_row_is_projection_matrix_row_F0 hn hm j : (hm <= hn)%nat -> (j <= 2 * hn)%nat ->
+  Forall2 Qeq (expected_row (2 * hn) (2 * hm) 0 j) (nth j (proj_matrix (2 * hn) (2 * hm) 0) []).
+Proof.
+  intros Hm Hj. unfold proj_matrix. rewrite LowPassSimExp.nth_map_seq by lia. rewrite Qeq_bool_refl0.
+  rewrite expected_row_is_proj_row_inb. now apply proj_matrix_F0_consistent.
+Qed.
+
+(** the whole matrix: every row of the F = 0 branch is the F = 0 value of the inbreeding form *)
+Theorem proj_matrix_F0_rows hn hm : (hm <= hn)%nat ->
+  Forall2 (Forall2 Qeq) (map (proj_row_inb (2 * hn) (2 * hm) 0) (seq 0 (2 * hn + 1))) (proj_matrix (2 * hn) (2 * hm) 0).
+Proof.
+  intros Hm. unfold proj_matrix. rewrite Qeq_bool_refl0.
+  assert (G : forall l, (forall j, In j l -> (j <= 2 * hn)%nat) ->
+              Forall2 (Forall2 Qeq) (map (proj_row_inb (2 * hn) (2 * hm) 0) l) (map (fun j => hyper_row (2 * hn) (2 * hm) j) l)).
+  { induction l as [|j l IH]; intros H; cbn [map]; constructor.
+    - apply proj_matrix_F0_consistent; [exact Hm | apply H; now left].
+    - apply IH. intros; apply H; now right. }
+  apply G. intros j Hj. apply in_seq in Hj. lia.
+Qed.
+
+Print Assumptions proj_matrix_F0_consistent.
+Print Assumptions expected_row_is_projection_matrix_row_F0.
